@@ -119,8 +119,7 @@ def message_element(op):
     if t == 'StoryDelete':
         return [tag, {}, '', '', ro + [x for s in src for x in _idtag('storyID', s)]]
     if t == 'StorySend':
-        i, j = op['body_span']
-        return [tag, {}, '', '', ro + story_to_send_children(pay[0], i, j)]
+        return [tag, {}, '', '', send_children(op)]
     if t in ('ItemInsert', 'ItemReplace'):
         return [tag, {}, '', '', ro + _idtag('storyID', op['story'])
                 + _idtag('itemID', op['target']) + pay]
@@ -190,11 +189,26 @@ def expected_class(op):
     return OP_TABLE[op['type']][2]
 
 
+def send_children(op):
+    """children of the roStorySend element: the story's children with [i:j] wrapped into storyBody, roID at roid_pos"""
+    i, j = op['body_span']
+    ch = story_to_send_children(op['payload'][0], i, j)
+    k = min(op.get('roid_pos', 0), len(ch))
+    return ch[:k] + [T('roID', op.get('ro_id', 'RO1'))] + ch[k:]
+
+
 def carried_nodes(op):
     """The story / item / metadata nodes an op carries, as they must appear in the running order."""
     pay = op.get('payload', [])
     if op['type'] == 'StorySend':
+        # the sent element with the children of storyBody spliced in place and storyItem renamed item
+        out = []
+        for c in send_children(op):
+            if c[0] == 'storyBody':
+                for b in c[4]:
+                    out.append(['item', b[1], b[2], b[3], b[4]] if b[0] == 'storyItem' else b)
+            else:
+                out.append(c)
         st = pay[0]
-        # the roStorySend element becomes the story: its roID child stays where it was sent
-        return [['story', st[1], st[2], st[3], [T('roID', op.get('ro_id', 'RO1'))] + list(st[4])]]
+        return [['story', st[1], st[2], st[3], out]]
     return pay
